@@ -21,7 +21,7 @@ EXPLANATION = (
     "KmipOperationFailure(status, reason, message) taken field-by-field from the same result; KMIPProxy builds each result's "
     "status/reason/message from the same-named batch-item fields and never swallows a decode error; the receive loop is "
     "bounded by the missing byte count, accumulates what was received and raises on a short stream; the KMIPVersion <-> "
-    "ProtocolVersion mapping composes to the identity. Request decodability (C19.R5) is decided by the C01 schema agreement.")
+    "ProtocolVersion mapping composes to the identity. Request decodability (C19.R5) is the reader/writer schema agreement restricted to request structures.")
 
 STATUS, REASON, MESSAGE = 'result_status', 'result_reason', 'result_message'
 
@@ -427,6 +427,34 @@ def run(ctx):
     wr = [c for c in ast.walk(sm) if isinstance(c, ast.Call) and isinstance(c.func, ast.Attribute) and c.func.attr == 'write' and len(c.args) + len(c.keywords) == 2]
     ctx.check(len(wr) == 1 and is_self_attr((wr[0].args[1:2] or [k.value for k in wr[0].keywords])[0], 'kmip_version'), 'C19.R4', 'KMIPProxy._send_message|encode-version',
               '%s:%s KMIPProxy._send_message' % (PROXY, sm.lineno), 'request encoded under self.kmip_version', 'the request is not encoded under self.kmip_version')
-    ctx.not_decided += ['that the data returned on success equals the payload values (field-by-field naming of result objects is only checked for status/reason/message)',
-                        'C19.R5 request decodability is the C01 reader/writer schema agreement restricted to request payloads']
+
+    # ---------------- R5 requests are decodable: reader/writer schema agreement of everything a request consists of
+    ctx.rule('C19.R5', 'every request structure the client emits (request message, header, batch item, all request payloads) is accepted by its own reader under every version: element sequence and presence agree (C01.R1/R2 restricted to requests)')
+    from ..ttlv import Schema, VERSIONS
+    from .c01 import compare_schemas
+    sch = Schema(src)
+    n_req = 0
+    for ref, rf, wf in sch.codec_classes():
+        cname = ref[1]
+        if not (cname.endswith('RequestPayload') or cname in ('RequestMessage', 'RequestHeader', 'RequestBatchItem', 'Authentication', 'ProtocolVersion')):
+            continue
+        n_req += 1
+        R, W = sch.extract(ref, rf, 'read'), sch.extract(ref, wf, 'write')
+        agg = {}
+        for v in VERSIONS:
+            if R.defined_under(v) != W.defined_under(v):
+                agg.setdefault(('version-support', 'reader and writer are defined for different versions', 'class'), []).append(v)
+                continue
+            if not R.defined_under(v):
+                continue
+            for kind, desc, nm in compare_schemas(R, W, v):
+                if kind in ('written-not-read', 'presence', 'repetition'):
+                    agg.setdefault((kind, desc, nm), []).append(v)
+        site = '%s:%s %s' % (ref[0], wf.lineno, cname)
+        if not agg:
+            ctx.ok('C19.R5', site, 'everything %s.write emits is accepted by %s.read under all versions' % (cname, cname))
+        for (kind, desc, nm), vs in sorted(agg.items()):
+            ctx.fail('C19.R5', '%s|%s %s' % (cname, kind, nm), site, 'a request the client can emit is not decodable by the server: %s [versions %s]' % (desc, ','.join(x[5:] for x in vs)))
+    ctx.count('request_structures', n_req, 25)
+    ctx.not_decided += ['that the data returned on success equals the payload values (field-by-field naming of result objects is only checked for status/reason/message)']
     ctx.assumptions += ['socket.recv(n) returns at most n bytes and b"" at end of stream']
